@@ -18,6 +18,10 @@ func genC09(tier string, seed uint64) *simkit.Plan {
 	p.SetKnob("disk_ttl_ms", int64(ttls[r.Intn(len(ttls))]))
 	p.SetKnob("numpin_ttl_ms", int64(ttls[r.Intn(len(ttls))]))
 	p.SetKnob("ping_ms", int64([]int{200, 1000, 5000, 15000}[r.Intn(4)]))
+	// a slow daemon: `repo stat` / `pin ls` take a share of the metric's TTL (per
+	// cent; below one half, beyond which no cadence can keep the metric alive)
+	p.SetKnob("stat_pct", int64([]int{0, 0, 10, 34, 45}[r.Intn(5)]))
+	p.SetKnob("ls_pct", int64([]int{0, 0, 10, 34, 45}[r.Intn(5)]))
 	n := r.Range(3, 25)
 	for i := 0; i < n; i++ {
 		st := Step{DelayMs: r.Pick(3, 3, 2) * r.Range(50, 6000)}
@@ -45,6 +49,11 @@ func execC09(plan *simkit.Plan, run *simkit.Run) {
 		realInformers: true, diskTTL: diskTTL, numpinTTL: numpinTTL})
 	defer w.close()
 	n0 := w.nodes[0]
+	n0.ipfs.StatDelay = diskTTL * time.Duration(plan.Knob("stat_pct", 0)) / 100
+	n0.ipfs.LsDelay = numpinTTL * time.Duration(plan.Knob("ls_pct", 0)) / 100
+	if n0.ipfs.StatDelay > 0 || n0.ipfs.LsDelay > 0 {
+		run.Fault("slow_daemon_reads")
+	}
 	down := false
 	for _, raw := range plan.Steps {
 		s := decode(raw)
@@ -79,7 +88,12 @@ func execC09(plan *simkit.Plan, run *simkit.Run) {
 	pubs := n0.mon.PublishedCopy()
 	ttlOf := map[string]time.Duration{"ping": 2 * ping, "freespace": diskTTL, "numpin": numpinTTL}
 	const slack = 50 * time.Millisecond
-	for name, ttl := range ttlOf {
+	// what reading the value from the daemon takes: every attempt is that much
+	// later than the loop's timer
+	readOf := map[string]time.Duration{"ping": 0, "freespace": n0.ipfs.StatDelay, "numpin": n0.ipfs.LsDelay}
+	for _, name := range []string{"freespace", "numpin", "ping"} {
+		ttl := ttlOf[name]
+		read := readOf[name]
 		var prev *simkit.PublishedMetric
 		attempts := 0
 		for i := range pubs {
@@ -93,8 +107,8 @@ func execC09(plan *simkit.Plan, run *simkit.Run) {
 				switch {
 				case prev.Err && name != "ping":
 					// retry sooner after an error: TTL/4
-					if gap > ttl/4+slack {
-						run.Violate("C09/retry_too_late", name, "%s: publish failed at %s; the next attempt came %s later, more than TTL/4 = %s", name, w.ts(prev.At), gap, ttl/4)
+					if gap > ttl/4+read+slack {
+						run.Violate("C09/retry_too_late", name, "%s: publish failed at %s; the next attempt came %s later, more than TTL/4 = %s plus the %s the daemon takes to answer", name, w.ts(prev.At), gap, ttl/4, read)
 					}
 					run.Probe("retries_checked")
 				case !prev.Err && prev.Valid:
@@ -114,12 +128,12 @@ func execC09(plan *simkit.Plan, run *simkit.Run) {
 		}
 		// the loop is still alive at the end: the last attempt is recent
 		idle := end.Sub(prev.At)
-		limit := ttl/2 + slack
+		limit := ttl/2 + read + slack
 		if name == "ping" {
 			limit = ping + slack
 		}
 		if prev.Err && name != "ping" {
-			limit = ttl/4 + slack
+			limit = ttl/4 + read + slack
 		}
 		if idle > limit {
 			run.Violate("C09/publish_loop_stopped", name, "%s: the last publish attempt was at %s (failed=%v); %s later the running peer has not tried again (TTL %s)", name, w.ts(prev.At), prev.Err, idle, ttl)
